@@ -424,3 +424,140 @@ func (st *SortTable) TypeIDNamed(name string) int {
 	st.typeByID = append(st.typeByID, nil)
 	return id
 }
+
+// RenderSliced builds a query containing only the part of the context that is connected to the
+// goal: the definitions the goal (transitively) mentions and, for a bounded number of rounds, the
+// assertions sharing a non-ubiquitous symbol with what has been collected. Dropping assertions only
+// weakens the hypotheses, so an `unsat` answer for the sliced query is a valid proof; any other
+// answer is inconclusive and the full query is used.
+func (s *Script) RenderSliced(mark int, extra []string, rounds int) string {
+	lines := s.lines[:mark]
+	known := map[string]bool{}
+	defDeps := map[string][]string{}
+	defLine := map[string]int{}
+	type asr struct {
+		idx  int
+		syms []string
+	}
+	var asserts []asr
+	symsOf := func(l string) []string {
+		var out []string
+		start := -1
+		for i := 0; i <= len(l); i++ {
+			if i < len(l) && l[i] != ' ' && l[i] != '(' && l[i] != ')' {
+				if start < 0 {
+					start = i
+				}
+				continue
+			}
+			if start >= 0 {
+				out = append(out, l[start:i])
+				start = -1
+			}
+		}
+		return out
+	}
+	for i, l := range lines {
+		switch {
+		case strings.HasPrefix(l, "(declare-fun "):
+			fs := symsOf(l)
+			if len(fs) > 1 {
+				known[fs[1]] = true
+				defLine[fs[1]] = i
+			}
+		case strings.HasPrefix(l, "(define-fun "):
+			fs := symsOf(l)
+			if len(fs) > 1 {
+				known[fs[1]] = true
+				defLine[fs[1]] = i
+				defDeps[fs[1]] = fs[2:]
+			}
+		}
+	}
+	count := map[string]int{}
+	for i, l := range lines {
+		if strings.HasPrefix(l, "(assert ") {
+			var ss []string
+			seen := map[string]bool{}
+			for _, t := range symsOf(l) {
+				if known[t] && !seen[t] {
+					seen[t] = true
+					ss = append(ss, t)
+					count[t]++
+				}
+			}
+			asserts = append(asserts, asr{i, ss})
+		}
+	}
+	cone := map[string]bool{}
+	var addSym func(t string)
+	addSym = func(t string) {
+		if !known[t] || cone[t] {
+			return
+		}
+		cone[t] = true
+		for _, d := range defDeps[t] {
+			addSym(d)
+		}
+	}
+	for _, x := range extra {
+		for _, t := range symsOf(x) {
+			addSym(t)
+		}
+	}
+	hub := func(t string) bool { return count[t] > 24 }
+	included := map[int]bool{}
+	for r := 0; r < rounds; r++ {
+		var newly []asr
+		for _, a := range asserts {
+			if included[a.idx] {
+				continue
+			}
+			for _, t := range a.syms {
+				if cone[t] && !hub(t) {
+					newly = append(newly, a)
+					break
+				}
+			}
+		}
+		if len(newly) == 0 {
+			break
+		}
+		for _, a := range newly {
+			included[a.idx] = true
+		}
+		for _, a := range newly {
+			for _, t := range a.syms {
+				addSym(t)
+			}
+		}
+	}
+	var b strings.Builder
+	b.WriteString("(set-option :produce-models true)\n(set-logic ALL)\n")
+	b.WriteString(s.sorts.Preamble())
+	for _, n := range s.declOrder {
+		b.WriteString(s.decls[n])
+		b.WriteByte('\n')
+	}
+	for i, l := range lines {
+		switch {
+		case strings.HasPrefix(l, "(assert "):
+			if !included[i] {
+				continue
+			}
+		case strings.HasPrefix(l, "(declare-fun "), strings.HasPrefix(l, "(define-fun "):
+			fs := symsOf(l)
+			if len(fs) > 1 && !cone[fs[1]] {
+				continue
+			}
+		}
+		b.WriteString(l)
+		b.WriteByte('\n')
+	}
+	for _, l := range extra {
+		b.WriteString(l)
+		b.WriteByte('\n')
+	}
+	b.WriteString("(check-sat)\n")
+	return b.String()
+}
